@@ -157,7 +157,7 @@ def run(tier):
     run = X.ExecRun(PROP, tier)
     d = C.workdir("c02")
     n = 100 if tier == "quick" else 2500
-    for k, (profile, cnt) in enumerate([("default", n), ("deep", n // 3)]):
+    for k, (profile, cnt) in enumerate([("default", n), ("deep", n // 3), ("noisy", n // 3)]):
         raw = os.path.join(d, "raw_%s.ndjson" % profile)
         C.gen_cases(cnt, C.seed() * 1000 + 20 + k, raw, profile)
         run.add_batch("c02_" + profile, raw)
